@@ -351,3 +351,406 @@ def mon_frame(ctx, res):
             yield (f'{kind}:{note}:moved-element-modified',
                    f'{_case_str(case)}: {label} may only change position but its content changed: {tree.first_diff(nb, na)}')
             return
+
+
+# ================================================================ C04
+def _msg_base(msg_text):
+    root = tree.read(msg_text)
+    for c in root:
+        if c.tag.startswith('ro') and c.tag not in ('roID',):
+            return c
+    return None
+
+
+def _expected_story_from_send(ss):
+    """Independent statement of the roStorySend -> story conversion: the sent element renamed
+    'story', the children of storyBody spliced in at its position in their original order,
+    storyItem children of storyBody renamed 'item'."""
+    kids = []
+    for c in ss:
+        if c.tag == 'storyBody':
+            for b in c:
+                n = tree.node(b)
+                if b.tag == 'storyItem':
+                    n = ('item',) + n[1:]
+                kids.append(n)
+        else:
+            kids.append(tree.node(c))
+    return ('story', tuple(sorted(ss.attrib.items())), tree._norm(ss.text), '', tuple(kids))
+
+
+def mon_payload(ctx, res):
+    obs = ctx.obs
+    case = ctx.case
+    kind = case['kind']
+    if obs.exc is not None:
+        if obs.phase != 'merge' or not ctx.merge_error:
+            yield (f'{kind}:raised:{obs.exc}', f'{_case_str(case)}: payload-carrying message with resolvable references raised {obs.exc}: {obs.exc_msg}')
+        return
+    av = ctx.after_view
+    if av is None or av.base is None:
+        yield (f'{kind}:unreadable-after', f'{_case_str(case)}: running order unreadable after the merge')
+        return
+    base = _msg_base(ctx.msg)
+    label = f"{kind}:{case.get('pkind', '')}{',pretty' if case.get('pretty') else ''}"
+    res.by_class[label + ':' + str(len(case.get('payload', case.get('elems', case.get('stories', case.get('body', ()))))))] += 1
+    if kind == 'StorySend':
+        if ctx.view.story(case['sid']) is None:
+            return
+        exp = _expected_story_from_send(base)
+        got = av.story(case['sid'])
+        res.extra['carried_elements_compared'] += 1
+        if got is None:
+            yield (f'{kind}:pos={case["body_pos"]}:lost', f'{_case_str(case)}: the sent story is not in the running order afterwards')
+            return
+        g = tree.strip_tail(tree.node(got.elem))
+        if g != exp:
+            yield (f'{kind}:pos={case["body_pos"]}:content-differs',
+                   f'{_case_str(case)}: story in the running order differs from the sent story: {tree.first_diff(exp, g)}')
+        return
+    if kind == 'RunningOrderReplace':
+        res.extra['carried_elements_compared'] += 1
+        exp = tree.node(base)
+        got = tree.node(av.base)
+        if exp[1:3] != got[1:3] or exp[4] != got[4]:
+            yield (f'{kind}:content-differs',
+                   f'{_case_str(case)}: roCreate content differs from the roReplace content: '
+                   f'{tree.first_diff(("roCreate",) + exp[1:3] + ("",) + exp[4:], ("roCreate",) + got[1:3] + ("",) + got[4:])}')
+        return
+    if kind == 'MetaDataReplace':
+        have = [tree.strip_tail(tree.node(c)) for _, c in av.meta]
+        for c in base:
+            if c.tag == 'roID':
+                continue
+            res.extra['carried_elements_compared'] += 1
+            n = tree.strip_tail(tree.node(c))
+            if n not in have:
+                same_tag = [h for h in have if h[0] == n[0]]
+                d = tree.first_diff(n, same_tag[0]) if same_tag else 'no element with that tag'
+                yield (f'{kind}:{c.tag}:carried-missing',
+                       f'{_case_str(case)}: carried <{c.tag}> is not in the running order with the sent content: {d}')
+                return
+        return
+    # stories / items carried as elements
+    if ctx.level == 'story':
+        src = base.find('element_source') if base.tag == 'roElementAction' else base
+        carried = [c for c in src if c.tag == 'story']
+        before_ids = set(ctx.view.story_ids)
+        tgt = case.get('tgt')
+        for c in carried:
+            cid = tree.child_text(c, 'storyID')
+            if kind in ('StoryInsert', 'EAStoryInsert', 'StoryAppend') and cid in before_ids:
+                continue     # duplicate: skipped by definition
+            if kind in ('StoryInsert', 'StoryReplace', 'EAStoryReplace') and tgt not in before_ids:
+                return
+            if kind == 'EAStoryInsert' and tgt != BLANK and tgt not in before_ids:
+                return
+            res.extra['carried_elements_compared'] += 1
+            got = [s for s in av.stories if s.id == cid]
+            if len(got) != 1:
+                yield (f'{label}:carried-count', f'{_case_str(case)}: carried story {cid} present {len(got)} times afterwards')
+                return
+            e, g = tree.strip_tail(tree.node(c)), tree.strip_tail(tree.node(got[0].elem))
+            if e != g:
+                yield (f'{label}:content-differs', f'{_case_str(case)}: carried story {cid} differs: {tree.first_diff(e, g)}')
+                return
+    elif ctx.level == 'item':
+        sb = ctx.addressed
+        if sb is None:
+            return
+        tgt = case.get('tgt')
+        if tgt != BLANK and tgt not in sb.item_ids:
+            return
+        sa = av.story(sb.id)
+        src = base.find('element_source') if base.tag == 'roElementAction' else base
+        carried = [c for c in src if c.tag == 'item']
+        for c in carried:
+            cid = tree.child_text(c, 'itemID')
+            res.extra['carried_elements_compared'] += 1
+            got = [k[2] for k in sa.kids if k[0] == 'item' and k[1] == cid] if sa is not None else []
+            if len(got) != 1:
+                yield (f'{label}:carried-count', f'{_case_str(case)}: carried item {cid} present {len(got)} times in story {sb.id} afterwards')
+                return
+            e, g = tree.strip_tail(tree.node(c)), tree.strip_tail(tree.node(got[0]))
+            if e != g:
+                yield (f'{label}:content-differs', f'{_case_str(case)}: carried item {cid} differs: {tree.first_diff(e, g)}')
+                return
+
+
+# ================================================================ C07
+def mon_completion(ctx, res):
+    ns = ctx.ns
+    obs = ctx.obs
+    case = ctx.case
+    kind = case['kind']
+    if obs.phase in ('parse-ro', 'parse-msg') and obs.exc:
+        yield (f'{kind}:unparsed:{obs.exc}', f'{_case_str(case)}: {obs.phase} failed: {obs.exc}: {obs.exc_msg}')
+        return
+    bv = ctx.view
+    ro = ctx.ro_obj
+    was = bv.completed
+    try:
+        now = bool(ro.completed)
+    except Exception as e:  # noqa
+        yield (f'{kind}:completed-accessor-raised', f'{_case_str(case)}: ro.completed raised {type(e).__name__}: {e}')
+        return
+    # round trip of what is there now
+    rt_cls = rt_completed = None
+    if obs.after is not None:
+        back, e = target_parse(ns, obs.after)
+        if back is not None:
+            rt_cls, rt_completed = type(back).__name__, bool(back.completed)
+        else:
+            rt_cls = 'EXC:' + type(e).__name__
+    if was:
+        res.extra['post_completion_transitions'] += 1
+        res.by_class[f'post:{kind}'] += 1
+        if obs.exc != 'MosCompletedMergeError':
+            yield (f'{kind}:post-completion:{obs.exc or "accepted"}',
+                   f'{_case_str(case)} added to a completed running order: expected MosCompletedMergeError, got {obs.exc or "no exception"}')
+        if obs.after != ctx.before:
+            yield (f'{kind}:post-completion:changed', f'{_case_str(case)} added to a completed running order changed it')
+        if not now:
+            yield (f'{kind}:post-completion:flag-lost', f'{_case_str(case)}: completed flag lost')
+        if rt_cls != 'RunningOrder' or rt_completed is not True:
+            yield (f'{kind}:post-completion:round-trip', f'completed running order read back as {rt_cls} completed={rt_completed}')
+        return
+    if kind == 'RunningOrderEnd':
+        res.extra['completion_transitions'] += 1
+        if obs.exc is not None:
+            yield (f'{kind}:raised:{obs.exc}', f'roDelete on a running order that is not completed raised {obs.exc}: {obs.exc_msg}')
+            return
+        av = ctx.after_view
+        if not now or av is None or not av.completed:
+            yield (f'{kind}:not-completed', 'roDelete merged but the running order is not reported completed')
+            return
+        if tree.node(bv.base) != tree.node(av.base) or len(av.bases) != 1:
+            yield (f'{kind}:content-changed',
+                   f'roDelete changed the running-order content: {tree.first_diff(tree.node(bv.base), tree.node(av.base))}')
+        metas = [c for c in av.root if c.tag == 'mosromgrmeta']
+        sent = _msg_base(ctx.msg)
+        rec = metas[0].find('roDelete') if len(metas) == 1 else None
+        if rec is None or tree.strip_tail(tree.node(rec)) != tree.strip_tail(tree.node(sent)):
+            yield (f'{kind}:record-differs', f'the recorded roDelete differs from the message ({len(metas)} completion records)')
+        # envelope outside roCreate / mosromgrmeta untouched
+        eb = [tree.node(c) for c in bv.root if c.tag not in ('roCreate', 'mosromgrmeta')]
+        ea = [tree.node(c) for c in av.root if c.tag not in ('roCreate', 'mosromgrmeta')]
+        if eb != ea:
+            yield (f'{kind}:envelope-changed', 'roDelete changed the envelope')
+        if rt_cls != 'RunningOrder' or rt_completed is not True:
+            yield (f'{kind}:round-trip', f'completed running order read back as {rt_cls} completed={rt_completed}')
+        return
+    # not completed before, message is not a roDelete: must not be reported completed
+    res.extra['never_completed_checks'] += 1
+    if now or rt_completed:
+        yield (f'{kind}:completed-without-roDelete',
+               f'{_case_str(case)}: running order reported completed (live={now}, after round trip={rt_completed}) although no roDelete was merged')
+    if rt_cls != 'RunningOrder' and obs.after is not None:
+        yield (f'{kind}:round-trip-class', f'{_case_str(case)}: serialised running order read back as {rt_cls}')
+
+
+def target_parse(ns, text):
+    from . import target
+    return target.parse(ns, text)
+
+
+# ================================================================ C14
+class RoundTrip:
+    """State invariant (every state is a serialisation produced by the implementation) and
+    one-step bisimulation live-object vs re-parsed text on the spanning-tree edge of each newly
+    discovered state."""
+
+    def __init__(self, bisim_harness=None, msg_id=1000, ro_id='RO1', per_kind=3):
+        self.bisim_harness = bisim_harness
+        self.per_kind = per_kind          # cases per message class in the bisimulation menu
+        self.msg_id = msg_id
+        self.ro_id = ro_id
+
+    # -- per state
+    def state(self, ns, h, text, view, res):
+        from . import target
+        res.extra['states_round_tripped'] += 1
+        ro, e = target.parse(ns, text)
+        if ro is None:
+            yield ('STATE:unreadable', f'reachable state does not read back: {type(e).__name__}: {e}')
+            return
+        if type(ro).__name__ != 'RunningOrder':
+            yield ('STATE:class', f'reachable state reads back as {type(ro).__name__}')
+            return
+        try:
+            again = str(ro)
+        except Exception as e:  # noqa
+            yield ('STATE:reserialise-raised', f'{type(e).__name__}: {e}')
+            return
+        if again != text:
+            d = tree.first_diff(tree.node(tree.read(text)), tree.node(tree.read(again)))
+            yield ('STATE:not-idempotent', f'str(from_string(s)) != s: {d}')
+        n_ro = sum(1 for c in view.root if c.tag == 'roCreate')
+        n_meta = sum(1 for c in view.root if c.tag == 'mosromgrmeta')
+        if n_ro != 1:
+            yield (f'STATE:roCreate-count={n_ro}', f'{n_ro} roCreate children of the root')
+        if n_meta > 1:
+            yield (f'STATE:mosromgrmeta-count={n_meta}', f'{n_meta} completion records')
+        if any(c.tag.startswith('ro') and c.tag != 'roCreate' for c in view.root):
+            yield ('STATE:foreign-message-element', 'a message element other than roCreate sits under the root')
+        try:
+            mid, rid, comp = ro.message_id, ro.ro_id, bool(ro.completed)
+        except Exception as e:  # noqa
+            yield ('STATE:envelope-accessor-raised', f'{type(e).__name__}: {e}')
+            return
+        if mid != self.msg_id:
+            yield ('STATE:message-id', f'message_id is {mid!r}, the roCreate had {self.msg_id}')
+        if rid != self.ro_id:
+            yield ('STATE:ro-id', f'ro_id is {rid!r}, the roCreate had {self.ro_id!r}')
+        if comp != view.completed:
+            yield ('STATE:completed-flag', f'completed={comp} but completion record present={view.completed}')
+
+    # -- per transition
+    def __call__(self, ctx, res):
+        from . import target
+        obs = ctx.obs
+        kind = ctx.case['kind']
+        if obs.exc is not None and obs.phase != 'merge':
+            return
+        if obs.after is None:
+            yield (f'{kind}:unserialisable', f'{_case_str(ctx.case)}: str(ro) raised after the merge: {obs.exc}')
+            return
+        # the live result and its re-read must agree
+        try:
+            back = tree.read(obs.after)
+        except Exception as e:  # noqa
+            yield (f'{kind}:not-well-formed', f'{_case_str(ctx.case)}: serialisation is not well-formed XML: {e}')
+            return
+        if self.bisim_harness is None or obs.exc is not None or obs.after == ctx.before:
+            return
+        if obs.after in res.successors or not ctx.harness.accept(ctx):
+            return
+        # one-step bisimulation on the edge that discovers obs.after
+        ns = ctx.ns
+        av = ctx.after_view
+        taken = Counter()
+        for c2 in self.bisim_harness.menu(av, _NullRes()):
+            if taken[c2['kind']] >= self.per_kind:
+                continue
+            taken[c2['kind']] += 1
+            m2 = self.bisim_harness.render(c2, av)
+            live, e1 = target.parse(ns, ctx.before)
+            msg1, e2 = target.parse(ns, ctx.msg)
+            o1 = target.step_live(ns, live, msg1)
+            if o1.after != obs.after:
+                yield (f'{kind}:nondeterministic', f'{_case_str(ctx.case)}: re-execution gave a different result')
+                return
+            msg2, e3 = target.parse(ns, m2)
+            if msg2 is None:
+                continue
+            o_live = target.step_live(ns, live, msg2)
+            o_text, _, _ = target.step(ns, obs.after, m2)
+            res.extra['bisimulation_steps'] += 1
+            if (o_live.after, o_live.exc, o_live.warns) != (o_text.after, o_text.exc, o_text.warns):
+                yield (f'{kind}:then:{c2["kind"]}:live-vs-reread-differ',
+                       f'after {_case_str(ctx.case)}, {_case_str(c2)} gives exc={o_live.exc} warns={list(o_live.warns)} on the live object '
+                       f'but exc={o_text.exc} warns={list(o_text.warns)} on the re-read serialisation'
+                       + ('' if o_live.after == o_text.after else '; resulting documents differ'))
+                return
+
+
+class _NullRes:
+    def __init__(self):
+        self.disabled = Counter()
+
+
+# ================================================================ C13
+class Independence:
+    """Three-step histories per message K and follow-up edit E (DESIGN C13)."""
+
+    def __init__(self, followup_harness, per_kind=4):
+        self.fh = followup_harness
+        self.per_kind = per_kind
+
+    def __call__(self, ctx, res):
+        from . import target
+        ns = ctx.ns
+        s, K = ctx.before, ctx.msg
+        kind = ctx.case['kind']
+        if ctx.obs.phase in ('parse-ro', 'parse-msg') and ctx.obs.exc:
+            return
+
+        def P(t):
+            o, e = target.parse(ns, t)
+            if o is None:
+                raise RuntimeError(f'harness: text does not parse: {e}')
+            return o
+
+        m = P(K)
+        snap = str(m)
+        ro1 = P(s)
+        o1 = target.step_live(ns, ro1, m)
+        res.extra['histories'] += 1
+        if str(m) != snap:
+            yield (f'{kind}:message-modified-by-merge',
+                   f'{_case_str(ctx.case)}: str(msg) changed by its own merge: '
+                   f'{tree.first_diff(tree.node(tree.read(snap)), tree.node(tree.read(str(m))))}')
+            return
+        # (b) same object into a second running order == fresh copy into it
+        ro2, ro2f = P(s), P(s)
+        ob = target.step_live(ns, ro2, m)
+        of = target.step_live(ns, ro2f, P(K))
+        if (ob.after, ob.exc, ob.warns) != (of.after, of.exc, of.warns):
+            yield (f'{kind}:reuse-differs-from-fresh',
+                   f'{_case_str(ctx.case)}: merging the same message object a second time gives exc={ob.exc} warns={list(ob.warns)}, '
+                   f'a fresh copy gives exc={of.exc} warns={list(of.warns)}' + ('' if ob.after == of.after else '; documents differ'))
+            return
+        if o1.exc is not None or o1.after == s:
+            return
+        # follow-up edits on ro1 after both ro1 and ro2 received m
+        av = ctx.after_view
+        if av is None or av.base is None:
+            return
+        taken = Counter()
+        for E in self.fh.menu(av, _NullRes()):
+            if taken[E['kind']] >= self.per_kind:
+                continue
+            etext = self.fh.render(E, av)
+            eobj, err = target.parse(ns, etext)
+            if eobj is None:
+                continue
+            m = P(K)
+            snap = str(m)
+            ro1, ro2 = P(s), P(s)
+            target.step_live(ns, ro1, m)
+            target.step_live(ns, ro2, m)
+            snap2 = str(ro2)
+            oe = target.step_live(ns, ro1, eobj)
+            if oe.after == o1.after:
+                continue   # the edit did nothing: uninformative
+            taken[E['kind']] += 1
+            res.extra['histories'] += 1
+            res.by_class[f'{kind}>{E["kind"]}'] += 1
+            if str(m) != snap:
+                yield (f'{kind}:then:{E["kind"]}:message-modified-by-later-edit',
+                       f'{_case_str(ctx.case)} then {_case_str(E)}: the earlier message object changed: '
+                       f'{tree.first_diff(tree.node(tree.read(snap)), tree.node(tree.read(str(m))))}')
+                return
+            if str(ro2) != snap2:
+                yield (f'{kind}:then:{E["kind"]}:running-orders-share-content',
+                       f'{_case_str(ctx.case)} merged into two running orders, then {_case_str(E)} on the first changed the second: '
+                       f'{tree.first_diff(tree.node(tree.read(snap2)), tree.node(tree.read(str(ro2))))}')
+                return
+            # (d) re-using m after the edit == fresh copy
+            ro3, ro3f = P(s), P(s)
+            o3 = target.step_live(ns, ro3, m)
+            o3f = target.step_live(ns, ro3f, P(K))
+            if (o3.after, o3.exc, o3.warns) != (o3f.after, o3f.exc, o3f.warns):
+                yield (f'{kind}:then:{E["kind"]}:reuse-after-edit-differs',
+                       f'{_case_str(ctx.case)} then {_case_str(E)}: merging the same message object again differs from a fresh copy')
+                return
+            # the message merged again into the edited running order itself
+            ro1f = P(oe.after) if oe.after else None
+            if ro1f is not None:
+                o4 = target.step_live(ns, ro1, m)
+                o4f = target.step_live(ns, ro1f, P(K))
+                if (o4.after, o4.exc, o4.warns) != (o4f.after, o4f.exc, o4f.warns):
+                    yield (f'{kind}:then:{E["kind"]}:remerge-into-same-differs',
+                           f'{_case_str(ctx.case)} then {_case_str(E)} then the same message object again: differs from a fresh copy '
+                           f'into the re-read running order (exc {o4.exc} vs {o4f.exc})')
+                    return
